@@ -645,7 +645,9 @@ impl Report {
 
     /// Write evidence, print VIOLATION / KNOWN-FINDING lines, return the process exit code.
     pub fn finish(&self) -> i32 {
-        let dir = &self.verif_dir;
+        // VERIF_OUT_DIR redirects evidence and replay output (used when the checks are run against seeded changes)
+        let out_dir = std::env::var("VERIF_OUT_DIR").unwrap_or_else(|_| self.verif_dir.clone());
+        let dir = &out_dir;
         let _ = std::fs::create_dir_all(format!("{}/replays", dir));
         let _ = std::fs::create_dir_all(format!("{}/evidence", dir));
         let viols = self.violations.lock().unwrap();
